@@ -11,6 +11,10 @@ from ..core import Broken, Ctx, Violation
 PROP_FILE = "Properties/C11.v"
 
 TRUSTED = [
+    "translator/c11.py, fitness description: the loop over enumerate(zip(processors, self.all_target_data)), its single "
+    "accumulation `acc += self._calculate_fitness(...)`, every `self.<attr> = / += <expr>`, break, continue, return in the "
+    "loop body / else clause / after the loop with its guard, the returned expression, the constant each register is "
+    "initialised with in __init__ -> Gen_C11.src_fdesc",
     "translator/c11.py (fails closed on any other shape): comparisons of _check_out_fit_ranges / FitRange2D.check / "
     "FitRange3D.check incl. the helpers _bounds/_length and the dispatch order of check_fit_ranges -> Gen_C11.src_checker; "
     "which sizes ModelFittingDataTree.__init__ passes as rows/cols/readout_times at its two call sites -> src_calls; where "
@@ -833,6 +837,30 @@ def bigify(c):
     return d
 
 
+def gen_hist_exhaustive(max_len, copies, nts=(2, 3)):
+    """EVERY history of length <= max_len over three decision vectors (the exact optimum, a near one, a far one) on fixed
+    plain configurations with 2 and 3 targets; with `copies` each evaluation is made on the object or on a copy of it"""
+    out = []
+    pattern = [[1, 2], [3, 5]]
+    vecs = [(2, 1), (Fraction(3, 2), 1), (0, -2)]
+    kinds = ["fit", "fit_copy"] if copies else ["fit"]
+    for nt in nts:
+        offsets = [3, 0, 7][:nt]
+        targets = [[[[2 * v + offsets[k] + 1 for v in row] for row in pattern]] for k in range(nt)]
+        base = dict(kind="hist", ff="abs", free=0, multi=False, steps=1, pattern=pattern, offsets=offsets, targets=targets,
+                    trng=rng2((0, 2), (0, 2)), orng=rng3((None, None), (0, 2), (0, 2)), weights=None, bypass=False,
+                    flag=None, rel="exhaustive")
+        for n in range(2, max_len + 1):
+            for seq in itertools.product([(k, i) for k in kinds for i in range(len(vecs))], repeat=n):
+                if not any(k == "fit" for k, _ in seq[:-1]):
+                    continue            # nothing was evaluated on the object itself before the last step
+                ids, ops = {}, []
+                for k, i in seq:
+                    ops.append(dict(op=k, gain=vecs[i][0], bias=vecs[i][1], id=ids.setdefault(i, len(ids))))
+                out.append(dict(base, ops=ops))
+    return out
+
+
 def gen_hist(r, count, max_len):
     return [gen_hist_one(r, max_len) for _ in range(count)]
 
@@ -1407,6 +1435,11 @@ def run(ctx: Ctx):
         "one rounding of the final division (2^-52 relative); the simulated frames come from the probe model "
         "verif_probes_c11.pattern whose formula the harness recomputes independently",
         "champion theorems are about the model champ' = min(champ, best of the evolution); pygmo itself is observed only",
+        "history theorems: the state of the problem object is the list of scalar attributes (registers) the translator finds "
+        "written by fitness; the translator refuses (fails closed on) every other way fitness or the methods it calls could "
+        "keep state: writes to other attributes, item / attribute stores and in-place operations on objects that may belong "
+        "to the problem, mutating method calls on attributes, global / nonlocal, decorators, nested definitions; the "
+        "pipelines are a function `simulate` of the decision vector (true of the probe model)",
     ]
     gen = {}
     try:
@@ -1434,6 +1467,7 @@ def run(ctx: Ctx):
     fit_cases += gen_fit_sizes(ctx.rng("fitsizes"), ctx.quick) + gen_fit(ctx.rng("fit"), ctx.budget(72, 480))
     hist_cases = load_corpus_hist()
     ctx.cov["corpus_histories"] = len(hist_cases)
+    hist_cases += gen_hist_exhaustive(2, False) if ctx.quick else gen_hist_exhaustive(3, True)
     hist_cases += gen_hist(ctx.rng("hist"), ctx.budget(30, 240), 9 if ctx.quick else 14)
     calib_cases = gen_calib(ctx.rng("calib"), ctx.budget(2, 10), with_single=True, quick=ctx.quick)
     prefetch(ctx, ck_cases + [ff_payload(c) for c in ff_cases] + [fit_payload(c) for c in fit_cases]
@@ -1444,7 +1478,9 @@ def run(ctx: Ctx):
     ck_pairs, _, _ = leg_ck(ctx, ck_cases)
     ctx.log(f"checker leg done ({len(ck_pairs)} cases) t={__import__('time').time() - ctx.t0:.0f}s")
     ctx.cov["exhaustive"] = ("check_fit_ranges: every (target slice, result slice) pair per dimension with bounds in "
-                             f"{{None, 0..n+1}} for n <= {2 if ctx.quick else 5}")
+                             f"{{None, 0..n+1}} for n <= {2 if ctx.quick else 5}; every history of "
+                             + ("2 evaluations" if ctx.quick else "<= 3 evaluations (on the object or on a copy)")
+                             + " over three decision vectors on one problem object with 2 and with 3 targets")
 
     # 2. the three functions, then problem.fitness
     leg_ff(ctx, ff_cases)
@@ -1463,10 +1499,12 @@ def run(ctx: Ctx):
     distinct = {json.dumps(c, sort_keys=True) for c, _ in ck_pairs if c["t"] and c["o"] and c["t"] != c["o"]}
     distinct |= {json.dumps(jsonable(c), sort_keys=True) for c, _ in fit_pairs
                  if len(c["targets"]) > 1 or c["weights"] or c["bypass"]}
+    distinct |= {json.dumps(hist_payload(c), sort_keys=True) for c, _ in hist_pairs
+                 if sum(1 for x in c["ops"] if x["op"] == "fit") >= 2}
     ctx.cov["distinct_nontrivial"] = len(distinct)
     ctx.cov["rule"] = ("checker cases whose target and result ranges differ; problem.fitness cases with more than one "
-                       "target, or weights, or a shifted result range")
-    ctx.cov["traces_validated_against_impl"] = len(ck_pairs) + len(fit_pairs)
+                       "target, or weights, or a shifted result range; histories with at least two evaluations on the object")
+    ctx.cov["traces_validated_against_impl"] = len(ck_pairs) + len(fit_pairs) + len(hist_pairs)
     ctx.cov["disagreements_checked"] = sum(1 for b in ctx.broken if b.kind == "correspondence")
     for c, o in fit_pairs[:3]:
         ctx.sample(dict(ff=c["ff"], multi=c["multi"], trng=c["trng"], orng=c["orng"], offsets=c["offsets"],
@@ -1552,18 +1590,30 @@ META = dict(
         "#processors: zip drops targets, refuted in general); (4) the model MEETS the specification used to judge the "
         "implementation outside the input classes of the three open findings (C11_model_meets_spec_partial; the full "
         "statement is refuted with witnesses for F6d, F6e, zip); (5) champion tracking min(previous, best of the evolution) "
-        "is non-increasing, a lower bound of everything met and an actually computed value. The model is tied to the code "
+        "is non-increasing, a lower bound of everything met and an actually computed value; (6) the problem object WITH its "
+        "mutable state (Model/FitnessHist.v: scalar attributes as registers, guarded writes / break / continue / return around "
+        "the accumulation, description regenerated from ModelFittingDataTree.fitness): for every history of operations on one "
+        "object (fitness of any vectors in any order, repeated, on copies, interleaved with other calls) and whatever earlier "
+        "calls left behind, every fitness is the stateless model's value at THAT vector, the same vector gets the same value "
+        "everywhere, and it is the declared sum over all targets (C11_fitness_history_independent, "
+        "C11_same_vector_same_fitness, C11_history_fitness_is_declared; for any description whose exits and returned "
+        "expressions read no register: C11_state_blind_is_pure). The model is tied to the code "
         "by evaluating it inside Coq against the real check_fit_ranges (exhaustive per dimension for small sizes), the "
         "three real fitness functions, problem.fitness(x) on integer-valued probe frames (exact; targets smaller/larger "
-        "than the frame in rows, columns and readout times) and real tiny calibrations (/champion/fitness non-increasing, "
-        "last value = problem.fitness(champion) = independent numpy recomputation); the implementation's outputs are "
-        "judged inside Coq against the specification."),
+        "than the frame in rows, columns and readout times), HISTORIES of evaluations on one problem object (good candidate "
+        "first, worse ones after, repeated and nearly equal vectors, evaluations on deep copies / pickle round trips, other "
+        "calls in between; 1..3 targets; every step judged against the history-free specification, equal vectors must get "
+        "equal values, the problem's data must be unchanged; small-scope exhaustive enumeration) and real tiny calibrations "
+        "(/champion/fitness non-increasing, last value = problem.fitness(champion) = independent numpy recomputation; EVERY "
+        "reported individual - the champion of every island after every evolution, every member of /best - re-evaluated on "
+        "a freshly built problem, exact equality); the implementation's outputs are judged inside Coq against the "
+        "specification."),
     level_note=(
         "Proved for all inputs: statements about the Gallina model. Established by correspondence (= testing): that the "
         "model's checker/constructor/fitness/pairing/weights behave like the Python on the generated cases; pygmo's "
         "champion tracking and the re-simulation are observed on real runs only (the returned /simulated data cannot be "
         "computed at all: C11-resim). Trusted: Coq kernel + vm_compute, translator/c11.py, the harness and driver, "
         "numpy/numba/xarray semantics on exact inputs. Seeding of calibration (C04/F1) is not covered."),
-    technique="Coq proof over generated checker / call-site / weights tables + inductive sum/champion theorems + in-Coq correspondence/spec evaluation",
+    technique="Coq proof over generated checker / call-site / weights tables and the generated description of the fitness method's state + inductive sum/history/champion theorems + in-Coq correspondence/spec evaluation",
     design_ref="DESIGN.md section 6, C11",
 )
